@@ -25,6 +25,7 @@ WARMUP = [
     "{ RdV = RsV; }",                                     # +0
     "{ RdV = revbit32(RsV) + clz32(RtV) + clo32(RsV); }", # +3
 ]
+BUILTIN_LIKE = ["get_npc", "STORE_SLOT_CANCELLED", "WRITE_PRED", "WRITE_REG"]     # names gen_call may give a generated routine
 BUNDLED_NAMES = ["clz32", "clz64", "clo32", "clo64", "revbit16", "revbit32", "revbit64", "fbrev", "conv_round", "fcirc_add",
                  "set_usr_field", "get_usr_field"]
 # (bundled routine, local) pairs that are not prefixed with the routine's name on the unchanged tree (known finding F4)
@@ -311,6 +312,13 @@ class EngineC08(HistEngine):
                     if rr is not None and rr["status"] == "ok":
                         V.append(Violation("C08", "registration", "call-rejected", f"{cfg}:{o.get('exc')}",
                                            {"caller": c["text"], "msg": o.get("msg"), "uses": c["uses"]}, step))
+                    elif rr is not None and any(u in BUILTIN_LIKE for u in c["uses"]):
+                        # a routine's name is only a name: the same routines registered under neutral names, called by the
+                        # same text, are the reference
+                        rn = self.ref_with_subs(o["fmt"], c, workload, rename={b: "vfneutral_" + b.lower() for b in BUILTIN_LIKE})
+                        if rn is not None and rn["status"] == "ok":
+                            V.append(Violation("C08", "registration", "call-rejected-by-name", cfg,
+                                               {"caller": c["text"], "msg": o.get("msg"), "uses": c["uses"]}, step))
                 out.count("caller_rejected")
                 continue
             code = o["parts"][0]["code"]
@@ -484,14 +492,22 @@ class EngineC08(HistEngine):
                 self.refs[key] = None
         return self.refs[key]
 
-    def ref_with_subs(self, fmt, caller, workload):
+    def ref_with_subs(self, fmt, caller, workload, rename=None):
         """The caller compiled on a fresh compiler right after registering the routines of this workload."""
-        key = ("c08ref", fmt, caller["text"], stable_hash(workload.get("funcs", {}))[:12])
+        key = ("c08ref", fmt, caller["text"], stable_hash(workload.get("funcs", {}))[:12], bool(rename))
         if key not in self.refs:
             ops = [dict(op) for op in workload["ops"] if op["op"] == "add_sub"]
+            text = caller["text"]
+
+            def ren(t):
+                for a, b in (rename or {}).items():
+                    t = re.sub(r"\b%s\b" % re.escape(a), b, t)
+                return t
             for op in ops:
                 op["inst"] = 0
-            ops.append({"op": "stmt", "inst": 0, "code": caller["text"]})
+                if rename:
+                    op["name"], op["body"] = ren(op["name"]), ren(op["body"])
+            ops.append({"op": "stmt", "inst": 0, "code": ren(text)})
             try:
                 self.refs[key] = self.sim.execute(fmt, ops)[-1]
             except RuntimeError:
